@@ -2,25 +2,31 @@
 from pyvc.lib import arrays
 arrays.FLOAT_AS[0] = "float"
 PROPERTY = "C06"
-LEVEL = "other"
+LEVEL = "proof"
 CONTRACT_MODULES = ["contracts.c06"]
 H = "batchie.scoring.main.ChunkedScoresHolder."
 CARRIERS = [H + "__init__", H + "add_score", H + "plate_id_with_minimum_score", H + "combine", H + "concat", "batchie.data.ScreenBase.is_observed", "batchie.scoring.main.select_next_plate", "batchie.scoring.main.score_chunk"]
 NATIVE = "c06.py"
-TECHNIQUE = ("contract-based deductive verification (pyvc + z3) of the scores holder and the minimum-score selection; score_chunk / "
-             "select_next_plate / the two command lines by a bounded stand-in on the real functions")
+TECHNIQUE = ("contract-based deductive verification (pyvc + z3) of the scores holder, score_chunk and select_next_plate; the two command lines and the "
+             "content of the conditioned views by a bounded stand-in on the real functions")
 EXPLANATION = (
     "PROVED (all inputs): ChunkedScoresHolder.__init__ / add_score (representation invariant, append semantics, earlier pairs "
-    "kept), combine (pairs of self followed by pairs of other; returns self), plate_id_with_minimum_score (requires some scored "
-    "eligible id; the result is a scored id of the eligible set and no eligible scored id has a strictly smaller score - "
-    "first-minimum argmin, ties allowed - with and without an eligible list; holder untouched), concat of 1, 2 and 3 chunk tables "
-    "(contents symbolic): every (plate, score) pair of every table exactly once, in order, ScreenBase.is_observed on a "
-    "view (all selected rows observed). Contracts for select_next_plate (policy abstracted as 'returns a sub-collection of its "
-    "unobserved_plates argument') and the comprehension/sorted/array_split machinery exist (contracts/c06.py, pyvc/lib/comp.py) "
-    "and discharge most of their obligations, but the membership chain through filter + sorted + policy does not discharge "
-    "within a stable solver budget, so select_next_plate and score_chunk are NOT counted: they are decided by the bounded "
-    "stand-in only (all chunk counts incl. more chunks than plates, batches, score tables with ties and -inf, chunk-file "
-    "orders, four policies). Hence level 'other'.")
+    "kept), combine (pairs of self followed by pairs of other; returns self), concat of 1, 2, 3 chunk tables (every pair of every "
+    "table once, in order), plate_id_with_minimum_score (requires some scored eligible id; the result is a scored id of the "
+    "eligible set and no eligible scored id has a strictly smaller score - first-minimum argmin, ties allowed). score_chunk, with "
+    "and without a batch, for every number of chunks and chunk index: the candidate list is exactly the unobserved plates not in "
+    "the batch (each listed plate is such a plate of this screen; every row of such a plate lies in a listed plate), sorted by "
+    "strictly increasing plate id; the chunk is section chunk_index of that list under numpy's array_split arithmetic (sections "
+    "are consecutive and start at 0 by the model's definition); the scorer - ABSTRACT contract: returns exactly one score per plate "
+    "it is given - is called on a dictionary with one key per plate of the section (keys pairwise distinct), and the returned "
+    "table is full and holds exactly one row per plate of the section, with the scorer's value (loop invariants for the "
+    "dictionary-building and the table-filling loops). select_next_plate (no policy / no batch / ABSTRACT policy = returns a "
+    "sub-collection of the unobserved plates it is given): returns None iff no plate is allowed; otherwise the returned view is "
+    "exactly the rows of plate `best`, `best` is the id of an allowed plate, that plate is unobserved and not in the batch, and "
+    "no allowed plate has a strictly lower score (ghost lemmas characterise the sorted, filtered plate list; Screen.plates is used "
+    "through its C14 contract). NOT PROVED (bounded stand-in native/c06.py): that the last section ends at the end of the list "
+    "(sum of the section sizes), what the conditioned views (plate + batch, one experiment per condition) contain, and the two "
+    "command lines cli/calculate_scores.main, cli/select_next_plate.main.")
 TRUSTED = ["pyvc symbolic executor; z3 5.1", "numpy models: isin, boolean-mask selection, argmin (first minimal index), concatenate",
            "scores treated as reals (-inf and NaN are outside the model; the bounded check exercises -inf)"]
-ASSUMPTIONS = ["score_chunk, select_next_plate, cli/calculate_scores.main, cli/select_next_plate.main: bounded native check only"]
+ASSUMPTIONS = ["abstract Scorer / PlatePolicy contracts (assumptions on implementations)", "ScreenSubset.concat / combine / filter_dataset_to_unique_treatments inside score_chunk used as: returns some view or raises ValueError, touches nothing", "cli mains: bounded native check only"]
